@@ -402,7 +402,7 @@ def noteUpdate (midCh key : Nat) (props : Nat) (select : Option Nat := none) : M
           let chNow ← getMidi midCh
           let cc ← getChip c
           let d := cc.users.find? (·.isLoc midCh key)
-          let go := match d with | none => true | some u => u.sus == 0
+          let go := match d with | none => true | some u => u.sus % 2 == 0
           if go then
             let nNow := (findNote chNow key).getD info
             chipNoteOn c (voiceTone chNow nNow ph d)
